@@ -5,6 +5,7 @@ import (
 	"context"
 	"encoding/json"
 	"fmt"
+	"math"
 	"sort"
 	"strings"
 
@@ -89,6 +90,46 @@ func init() {
 			repo := "git@example.org:o/r.git"
 			ki := i % len(keys)
 			key := keys[ki]
+			// a command step that cannot be signed (its plugin config holds a value with no JSON form), somewhere in
+			// the list: success would promise a verifying signature on every command step, so signing must refuse
+			if i%8 == 3 {
+				if p2, err2 := pipeline.Parse(strings.NewReader(text)); (err2 == nil || warning.Is(err2)) && !hasUnknownDeep(p2.Steps) {
+					var cmds []*pipeline.CommandStep
+					var collect func(ss pipeline.Steps)
+					collect = func(ss pipeline.Steps) {
+						for _, s := range ss {
+							switch t := s.(type) {
+							case *pipeline.CommandStep:
+								cmds = append(cmds, t)
+							case *pipeline.GroupStep:
+								collect(t.Steps)
+							}
+						}
+					}
+					collect(p2.Steps)
+					if len(cmds) > 0 {
+						victim := cmds[rng.Intn(len(cmds))]
+						victim.Plugins = append(victim.Plugins, &pipeline.Plugin{Source: "unsignable#v1", Config: map[string]any{"ratio": math.NaN()}})
+						var serr2 error
+						func() {
+							defer func() {
+								if r := recover(); r != nil {
+									serr2 = fmt.Errorf("panic: %v", r)
+								}
+							}()
+							serr2 = signature.SignSteps(context.Background(), p2.Steps, key.priv, repo, signature.WithEnv(penv))
+						}()
+						cu := sx.L(sx.A("unsignable-step"), sx.A(text), sx.A(victim.Command))
+						if serr2 == nil {
+							oracleFail("C06", "unsignable-step-accepted", cu, fmt.Sprintf("SignSteps succeeded although the command step %q cannot be signed (signature: %v)", victim.Command, victim.Signature))
+						} else if strings.HasPrefix(serr2.Error(), "panic") {
+							oracleFail("C06", "panic", cu, serr2.Error())
+						} else {
+							stat("C06", "unsignable-refused")
+						}
+					}
+				}
+			}
 			ds, _ := docSexp(text)
 			c := sx.L(ds, pairsSexp(penv), sx.A(repo), sx.A(fmt.Sprintf("key%d", ki)))
 			// the steps as Go values before anything observes them (deep dump, unexported fields included): signing
